@@ -68,4 +68,122 @@ def render (sp : Spec) (n : FName) : List Char :=
       | some s => withInfix ++ ['.'] ++ s
     if n.gz then withSuffix ++ ".gz".toList else withSuffix
 
+/-! ### listing filters (`filter_files`, `InfixFilter`) -/
+
+/-- Rust `Path::file_stem` / `Path::extension` of a file name: split at the LAST dot, unless
+    there is none or the only one is the first character (`..` has no extension either) -/
+def splitExt (name : List Char) : List Char × Option (List Char) :=
+  if name = ['.', '.'] then (name, none) else
+  match findLastDot name 0 none with
+  | none => (name, none)
+  | some 0 => (name, none)
+  | some i => (name.take i, some (name.drop (i + 1)))
+where
+  findLastDot : List Char → Nat → Option Nat → Option Nat
+    | [], _, acc => acc
+    | c :: cs, i, acc => findLastDot cs (i + 1) (if c = '.' then some i else acc)
+
+/-- `s.get(n..)` with a BYTE offset: `none` beyond the end or inside a character -/
+def byteDrop : Nat → List Char → Option (List Char)
+  | 0, s => some s
+  | _ + 1, [] => none
+  | n + 1, c :: cs => if utf8Len c ≤ n + 1 then byteDrop (n + 1 - utf8Len c) cs else none
+
+/-- `s.as_bytes()[n] == b'_'` (a byte inside a multi-byte character is never `_`) -/
+def byteIsUnderscore : Nat → List Char → Bool
+  | _, [] => false
+  | 0, c :: _ => c = '_'
+  | n + 1, c :: cs => if utf8Len c ≤ n + 1 then byteIsUnderscore (n + 1 - utf8Len c) cs else false
+
+inductive IFilter where
+  | numbrs
+  | timstmps
+  | equls (s : List Char)
+  | none
+deriving DecidableEq, Repr
+
+/-- `InfixFilter::filter_infix`; `tsOk` = "chrono parses this text with the timestamp format" -/
+def filterInfix (tsOk : List Char → Bool) : IFilter → List Char → Bool
+  | .numbrs, i => match i with
+    | 'r' :: ds => decide (ds.length ≥ 5) && ds.all isDigit
+    | _ => false
+  | .timstmps, i => tsOk i
+  | .equls s, i => i == s
+  | .none, _ => false
+
+/-- one element of `filter_files` (the caller has already checked that the name starts with the
+    fixed name part) -/
+def acceptFile (sp : Spec) (tsOk : List Char → Bool) (f : IFilter) (oSuffix : Option (List Char))
+    (name : List Char) : Bool :=
+  let se := splitExt name
+  (match oSuffix with | some sfx => se.2 == some sfx | none => true) &&
+  (let fixed := fixedPart sp
+   let start := if fixed.isEmpty then 0 else blen fixed + 1
+   if blen se.1 ≤ start then false
+   else if start > 0 && !byteIsUnderscore (start - 1) se.1 then false
+   else match byteDrop start se.1 with
+     | none => false
+     | some mi => filterInfix tsOk f (mi.takeWhile (· ≠ '.')))
+
+/-- descending insertion sort of names (`sort_unstable` + `reverse`) -/
+def insNameDesc (x : List Char) : List (List Char) → List (List Char)
+  | [] => [x]
+  | y :: ys => if ltText y x then x :: y :: ys else y :: insNameDesc x ys
+
+/-- `read_dir_related_files`: the regular files whose name starts with the fixed part, newest name first -/
+def relatedFiles (sp : Spec) (names : List (List Char)) : List (List Char) :=
+  (names.filter (fun n => (fixedPart sp).isPrefixOf n)).foldr insNameDesc []
+
+def filterFiles (sp : Spec) (tsOk : List Char → Bool) (f : IFilter) (oSuffix : Option (List Char))
+    (files : List (List Char)) : List (List Char) :=
+  files.filter (acceptFile sp tsOk f oSuffix)
+
+structure Selector where
+  plain : Bool
+  rCurrent : Bool
+  compressed : Bool
+  custom : Option (List Char)
+deriving DecidableEq, Repr
+
+/-- `existing_log_files` (the result is sorted ascending by `LoggerHandle::existing_log_files`) -/
+def existingLogFiles (sp : Spec) (tsOk : List Char → Bool) (useRotation : Bool) (f : IFilter)
+    (sel : Selector) (names : List (List Char)) : List (List Char) :=
+  if useRotation then
+    let rel := relatedFiles sp names
+    (if sel.plain then filterFiles sp tsOk f sp.suffix rel else []) ++
+    (if sel.compressed then filterFiles sp tsOk f (some "gz".toList) rel else []) ++
+    (if sel.rCurrent then filterFiles sp tsOk (.equls "rCURRENT".toList) sp.suffix rel else []) ++
+    (match sel.custom with
+      | some c => filterFiles sp tsOk (.equls c) sp.suffix rel
+      | none => [])
+  else [render sp ⟨none, false⟩]
+
+/-! ### `FileSpec::try_from` -/
+
+/-- `FileSpec::try_from(dir ++ "/" ++ file)`: (directory, basename, suffix); the directory of a
+    bare file name is `.` (since the `fix:` commit) -/
+def tryFrom (dir : Option (List Char)) (file : List Char) : List Char × List Char × Option (List Char) :=
+  let se := splitExt file
+  (match dir with | some d => if d.isEmpty then ".".toList else d | none => ".".toList, se.1, se.2)
+
+/-- the file name `as_pathbuf(None)` gives for a spec derived by `try_from` -/
+def tryFromName (file : List Char) : List Char :=
+  let se := splitExt file
+  render ⟨se.1, none, se.2, "rCURRENT".toList, 0⟩ ⟨none, false⟩
+
+/-! ### the declarative family grammar (independent of the filter code) -/
+
+/-- infixes a scheme produces for ROTATED files -/
+def IsRotatedInfix (tsOk : List Char → Bool) (numbers : Bool) (i : List Char) : Prop :=
+  if numbers then ∃ ds : List Char, i = 'r' :: ds ∧ ds.length ≥ 5 ∧ ∀ c ∈ ds, isDigit c = true
+  else tsOk i = true
+
+/-- `[basename][_discriminant]_<infix>[.restart-NNNN][.suffix][.gz]` -/
+def IsFamilyName (sp : Spec) (tsOk : List Char → Bool) (numbers : Bool) (name : List Char) : Prop :=
+  ∃ (i : List Char) (restart : List Char) (gz : Bool),
+    IsRotatedInfix tsOk numbers i ∧ '.' ∉ i ∧
+    (restart = [] ∨ (¬ numbers ∧ ∃ n : Nat, n < 10000 ∧ restart = ".restart-".toList ++ pad 4 n)) ∧
+    name = (if (fixedPart sp).isEmpty then [] else fixedPart sp ++ ['_']) ++ i ++ restart ++
+      (match sp.suffix with | some s => '.' :: s | none => []) ++ (if gz then ".gz".toList else [])
+
 end FV.Names
